@@ -24,6 +24,9 @@ type rateCfg struct {
 func parseRateCfg(c M) rateCfg {
 	rc := rateCfg{tick: time.Duration(numOr(c, "tick_ms", 100)) * time.Millisecond, cap: numOr(c, "cap", 65536),
 		level: strOr(c, "level", "http"), extr: strOr(c, "extract", "custom")}
+	if us := numOr(c, "tick_us", 0); us > 0 { // sub-millisecond ticks for rates of thousands of tokens per second
+		rc.tick = time.Duration(us) * time.Microsecond
+	}
 	if time.Second%rc.tick != 0 {
 		fatal("tick must divide one second")
 	}
